@@ -1030,5 +1030,14 @@ func TestVerifC13(t *testing.T) {
 	for i := 0; i < rounds && c13Deadlocks < 40; i++ {
 		c13Stress(t, out, r, r.Range(4, 24), r.Range(20, 120), r.Range(20, 200), r.Range(1, 3))
 	}
+	// targeted search (a proof obligation or the correspondence broke and nothing failed so far):
+	// lock windows that no gate can reach — e.g. between two acquisitions before the first selection —
+	// only open under real concurrency, so hammer the processor with back-to-back reloads
+	if os.Getenv("VERIF_SEARCH") == "1" {
+		for i := 0; i < 12 && c13Deadlocks == 0; i++ {
+			c13Stress(t, out, r, r.Range(10, 24), r.Range(300, 600), 3000, r.Range(1, 2))
+			out.Count("gen:search-stress")
+		}
+	}
 	out.Note(fmt.Sprintf("deterministic scenarios are settled by goroutine dumps (no timeouts in the verdict); gate only on selector version 0; %d deadlock(s) observed", c13Deadlocks))
 }
